@@ -213,7 +213,11 @@ def isolate(node, graph, params, functions, canon_vals, input_cols, pids, orders
         inv = np.argsort(np.asarray(order))
         outs.append(res[1][node].to_numpy()[inv])
     base = outs[0]
+    is_id = node in endogenous_id_nodes()
     for o in outs[1:]:
-        if classify_values(base, o) == "F":
+        if is_id:
+            if partition(base.tolist(), pids) != partition(o.tolist(), pids):
+                return "differ", {"partition_a": _fmt_partition(base, pids), "partition_b": _fmt_partition(o, pids)}
+        elif classify_values(base, o) == "F":
             return "differ", _first_diff(base, o, pids)
     return "agree", None
